@@ -34,6 +34,9 @@ Definition u64_mul (a b:N) : res N := if (a * b <? U64)%N then Ok (a * b)%N else
 Definition next_multiple_of (a m:N) : N :=    (* m > 0 *)
   if (a mod m =? 0)%N then a else (a + (m - a mod m))%N.
 
+(* linear-time reverse (List.rev is quadratic); frev_rev in CommonFacts: frev l = rev l *)
+Definition frev {A} (l:list A) : list A := rev_append l [].
+
 (* ---- lists indexed by N ---- *)
 Definition len {A} (l:list A) : N := N.of_nat (length l).
 Definition take {A} (n:N) (l:list A) : list A := firstn (N.to_nat n) l.
@@ -44,7 +47,8 @@ Definition slice {A} (a b:N) (l:list A) : list A := take (b - a) (drop a l).   (
 Fixpoint chunks_fuel {A} (fuel k:nat) (l:list A) : list (list A) :=
   match fuel with
   | O => []
-  | S f => if length l <? k then [] else firstn k l :: chunks_fuel f k (skipn k l)
+  | S f => let c := firstn k l in
+           if length c <? k then [] else c :: chunks_fuel f k (skipn k l)
   end.
 Definition chunks {A} (k:nat) (l:list A) : list (list A) :=
   match k with O => [] | _ => chunks_fuel (length l) k l end.
@@ -105,3 +109,10 @@ Definition parse_dec (bound:N) (l:list byte) : option N :=
   | [] => None
   | _ => match parse_dec_acc l 0%N with Some v => if (v <? bound)%N then Some v else None | None => None end
   end.
+
+(* overwrite bytes in place starting from_end bytes before the end (script op fs_patch) *)
+Definition patch_from_end {A} (c:list A) (from_end:N) (b:list A) : list A :=
+  if (len c <? from_end)%N then c else
+  let start := (len c - from_end)%N in
+  let b' := take from_end b in
+  take start c ++ b' ++ drop (start + len b') c.
